@@ -160,6 +160,25 @@ theorem ty2_sound (o : Op2) (x y τ : Ty) (h : ty2 o x y = some τ) : mis2 o x y
     simp only [ty2] at h
     split at h <;> simp at h
     rw [h.1.2]; exact mis2_self .vproj (by simp) _
+  case sproj =>
+    simp only [ty2] at h
+    split at h <;> simp at h
+    rw [h.1.2]; exact mis2_self .sproj (by simp) _
+  case distanceSqr =>
+    simp only [ty2] at h
+    split at h <;> simp at h
+    rw [h.1.2]; exact mis2_self .distanceSqr (by simp) _
+  case rem =>
+    simp only [ty2] at h
+    split at h <;> simp at h
+    · rw [h.1]; exact mis2_self .rem (by simp) _
+    · rw [h.1]; exact mis2_self .rem (by simp) _
+  case orientY =>
+    simp [ty2] at h
+    rw [h.1.2, h.1.1]; exact mis2_self .orientY (by simp) _
+  case orientZ =>
+    simp [ty2] at h
+    rw [h.1.2, h.1.1]; exact mis2_self .orientZ (by simp) _
   case min =>
     simp only [ty2] at h
     split at h <;> simp at h
@@ -205,6 +224,18 @@ theorem ty3_sound (o : Op3) (x y z τ : Ty) (h : ty3 o x y z = some τ) : mis3 o
   case lerp =>
     simp [ty3] at h
     obtain ⟨⟨_, rfl, rfl⟩, _⟩ := h
+    simp [mis3, tagClash_self, unitClash_self, Ty.isAngle, f32]
+  case clamp =>
+    simp only [ty3] at h
+    split at h <;> simp at h
+    · obtain ⟨⟨rfl, rfl⟩, _⟩ := h
+      simp [mis3, tagClash_self]
+    · obtain ⟨⟨_, rfl, rfl⟩, _⟩ := h
+      simp [mis3, tagClash_self]
+  case dvdt =>
+    simp only [ty3] at h
+    split at h <;> simp at h
+    obtain ⟨⟨rfl, rfl⟩, _⟩ := h
     simp [mis3, tagClash_self, unitClash_self, Ty.isAngle, f32]
   case spherical =>
     simp [ty3] at h
